@@ -48,3 +48,17 @@ def validate_many(results, driver, workers=vlib.JOBS):
 def gen_worlds(seed, tag, n, **kw):
     rng = vlib.rng_for(seed, tag)
     return [worldgen.gen_world(rng, **kw) for _ in range(n)]
+
+
+def run_histories(jobs, workers=vlib.JOBS):
+    """jobs: list of (case id, world, steps) -> {case id: [(rr, ce), ...]}"""
+    out = {}
+
+    def one(job):
+        cid, w, steps = job
+        rrs = runlib.run_history(w, steps)
+        return cid, [(rr, runlib.canonical_events(rr)) for rr in rrs]
+    with concurrent.futures.ThreadPoolExecutor(max_workers=workers) as ex:
+        for cid, lst in ex.map(one, jobs):
+            out[cid] = lst
+    return out
